@@ -8,9 +8,10 @@ From CG Require Import Base.Prelude Model.Ast Model.Parser Model.Check Model.Dfa
 From CG Require Import Proofs.CheckSpans Proofs.PipelineSpans Proofs.CapstoneLayout.
 From CG Require Import Model.BashSem Model.Glob Spec.Lang Spec.ScriptRead Spec.Meaning Spec.Domain Spec.Invocations.
 From CG Require Import Proofs.TreeFacts Proofs.BashScript Proofs.BashCodec Proofs.EmbedEndToEnd Proofs.SubChecks
-  Proofs.BashMeaningSub Proofs.BashMeaningMix Proofs.StripFacts Proofs.GlobFacts Proofs.CapstoneMeaning.
-From CG Require Import Spec.Choice Proofs.CheckProvenance Proofs.CapstoneCommands Proofs.CapstoneChoice.
+  Proofs.BashMeaningSub Proofs.BashMeaningMix Proofs.StripFacts Proofs.GlobFacts Proofs.SubBridge Proofs.CapstoneLits Proofs.CapstoneMeaning.
+From CG Require Import Spec.Choice Spec.Warnings Proofs.CheckProvenance Proofs.CapstoneCommands Proofs.CapstoneChoice.
 From CG Require Import Proofs.CapstoneTotalRun.
+From CG Require Model.ChainTables Proofs.C12Chain Proofs.CapstoneChain.
 From CGgen Require Import Consts.
 
 (** ** C14 -- layout and statement order do not change the script
@@ -78,19 +79,32 @@ Print Assumptions C14_compile_bash_definition_order.
     Discharged from the pipeline: [alts_nonempty] (parser), [valid_literal_order] of the main and
     of every within-word order and [valid_grouping] (validation of the oracles inside
     [compile_bash]), well-formedness of the automata.  What remains:
-    - [lits_nodup o] (decidable, evaluated by the tie): no literal is listed twice.  It does NOT
-      follow from the pipeline: Rust lists a literal twice when it occurs both without a
-      description and with the empty description (witness [cmd (x a | y a "");]);
+    - [text_descr_ok text] (decidable ON THE TEXT): no description string of the grammar is empty.
+      It replaces the former oracle-side hypothesis "no literal is listed twice", which is now
+      PROVED from it ([CapstoneLits.compiled_orders_nodup]: a literal order [orders_ok] accepts has
+      no repeated entry, for the main automaton and every within-word one).  Why it cannot be
+      dropped: Rust deduplicates literals on (text, OPTIONAL description) and prints a missing
+      description as "", so a literal that occurs both without a description and with the empty one
+      is listed twice (witness [cmd (x a | y a "");] -> [literals=("y" "x" "a" "a")]).  That is
+      unobservable in the script -- only the LATER entry gets transitions (the id map keeps the
+      last id) and both matchers skip an entry without a transition; the same state cannot carry
+      both (ambiguity check: conflicting descriptions); different fallback levels are the known
+      C09/C04 class -- but C04b's reader theorem and C01's matcher theorem are stated for
+      duplicate-free literal orders, and a literal id without any transition is outside them;
     - (A): [name_ok] (the command name is a bash function name), [no_nl] of the signature,
       [body_ok] (no command body has a lone closing brace line) -- C07 leaves;
-    - (B): [mix_tree] (leaves are literals, commands, undefined nonterminals and within-word
-      expressions made of literals: the proved layers of C01), [subs_deterministic c] (two
-      within-word automata with the same language reached from one state lead to the same state;
-      decidable sufficient form [subs_single]; not implied by the ambiguity check, cf. C02's known
-      class of within-word automata merged up to input order), the decided domain [C01_domain], and
-      the environment: case-sensitive completion, the same word breaks on both sides and
-      [breaks_ok], a plain printable typed word, command outputs that agree with the environment
-      of the specification, an unambiguous line. *)
+    - (B): the WHOLE decided domain of C01 ([C01_bash_meaning], no [greedy_shadow] hypothesis, commands
+      and nonterminals inside words included): the shape hypothesis [sub_tree] of that theorem is
+      discharged here for every PARSED text compiled for bash ([parsed_sub_tree]: no distributive
+      description and no word inside a word by [check_tree]; no completion-side command because the
+      parser builds commands with the flag off and [specialize] sets it only for zsh).  Remaining:
+      [subs_deterministic c] (two within-word automata with the same language reached from one state
+      lead to the same state; decidable sufficient form [subs_single]; not implied by the ambiguity
+      check, cf. C02's known class of within-word automata merged up to input order), the decided
+      domain [C01_domain] and [C01_env_ok], and the environment: case-sensitive completion, the same
+      word breaks on both sides and [breaks_ok], a plain printable typed word, command outputs that
+      agree with the environment of the specification, an unambiguous line.  The reply contains
+      every required candidate and only allowed ones. *)
 Theorem C01_compile_bash_meaning :
   forall o builtins text s,
     compile_bash o builtins text = Ok s ->
@@ -98,7 +112,7 @@ Theorem C01_compile_bash_meaning :
       compile (pick_table (o_pops o)) (o_fuel o) builtins text Bash = Ok (v, c)
       /\ all_tables Bash c (o_main_lits o) (o_sub_lits o) = Ok (nd, a)
       /\ (name_ok (v_command v) -> no_nl (o_sig o) = true ->
-          Forall (fun cmd => body_ok (cmd_body cmd)) (a_commands a) -> lits_nodup o = true ->
+          Forall (fun cmd => body_ok (cmd_body cmd)) (a_commands a) -> text_descr_ok text = true ->
           (exists sts,
               script_stmts (v_command v) (d_start (c_main c)) nd a (o_groups o) = Ok sts
               /\ read_stmts Bash (v_command v) s = sts
@@ -108,8 +122,8 @@ Theorem C01_compile_bash_meaning :
           /\ tables_describe c (o_main_lits o) (o_sub_lits o) a
           /\ (forall w, accepts_items c w <-> denotes (v_expr v) w))
       /\ (forall (benv : BashSem.env) (en : Meaning.env) ws p,
-          mix_tree (v_expr v) = true -> lits_nodup o = true -> subs_deterministic c ->
-          C01_domain (v_expr v) = true ->
+          text_descr_ok text = true -> subs_deterministic c ->
+          C01_domain (v_expr v) = true -> C01_env_ok (v_expr v) en = true ->
           BashSem.e_ignore_case benv = false -> BashSem.e_wordbreaks benv = Meaning.e_wordbreaks en ->
           breaks_ok (BashSem.e_wordbreaks benv) = true -> plain p = true -> printable_str p = true ->
           (forall cm cid, Tables.index_of cm (a_commands a) = Some cid ->
@@ -119,7 +133,7 @@ Theorem C01_compile_bash_meaning :
           | None => exists log, run_from Repaired (d_start (c_main c)) a benv ws p = Ok (mkresult 1 [] log)
           | Some (req, al) =>
               exists reply log, run_from Repaired (d_start (c_main c)) a benv ws p = Ok (mkresult 0 reply log)
-                                /\ (forall x, In x reply <-> In x req) /\ incl req al
+                                /\ incl req reply /\ incl reply al
           end).
 Proof. exact compile_bash_meaning. Qed.
 Check C01_compile_bash_meaning :
@@ -129,7 +143,7 @@ Check C01_compile_bash_meaning :
       compile (pick_table (o_pops o)) (o_fuel o) builtins text Bash = Ok (v, c)
       /\ all_tables Bash c (o_main_lits o) (o_sub_lits o) = Ok (nd, a)
       /\ (name_ok (v_command v) -> no_nl (o_sig o) = true ->
-          Forall (fun cmd => body_ok (cmd_body cmd)) (a_commands a) -> lits_nodup o = true ->
+          Forall (fun cmd => body_ok (cmd_body cmd)) (a_commands a) -> text_descr_ok text = true ->
           (exists sts,
               script_stmts (v_command v) (d_start (c_main c)) nd a (o_groups o) = Ok sts
               /\ read_stmts Bash (v_command v) s = sts
@@ -139,8 +153,8 @@ Check C01_compile_bash_meaning :
           /\ tables_describe c (o_main_lits o) (o_sub_lits o) a
           /\ (forall w, accepts_items c w <-> denotes (v_expr v) w))
       /\ (forall (benv : BashSem.env) (en : Meaning.env) ws p,
-          mix_tree (v_expr v) = true -> lits_nodup o = true -> subs_deterministic c ->
-          C01_domain (v_expr v) = true ->
+          text_descr_ok text = true -> subs_deterministic c ->
+          C01_domain (v_expr v) = true -> C01_env_ok (v_expr v) en = true ->
           BashSem.e_ignore_case benv = false -> BashSem.e_wordbreaks benv = Meaning.e_wordbreaks en ->
           breaks_ok (BashSem.e_wordbreaks benv) = true -> plain p = true -> printable_str p = true ->
           (forall cm cid, Tables.index_of cm (a_commands a) = Some cid ->
@@ -150,21 +164,21 @@ Check C01_compile_bash_meaning :
           | None => exists log, run_from Repaired (d_start (c_main c)) a benv ws p = Ok (mkresult 1 [] log)
           | Some (req, al) =>
               exists reply log, run_from Repaired (d_start (c_main c)) a benv ws p = Ok (mkresult 0 reply log)
-                                /\ (forall x, In x reply <-> In x req) /\ incl req al
+                                /\ incl req reply /\ incl reply al
           end).
 Print Assumptions C01_compile_bash_meaning.
 
 (** Non-vacuity: for the text below (a fallback, a within-word expression, a literal) [compile_bash]
-    returns a script, the tree is in the proved layers and in the decided domain, no literal is
-    listed twice, the decidable form of [subs_deterministic] holds. *)
+    returns a script, the tree is in the proved layers and in the decided domain, no description
+    is empty, the decidable form of [subs_deterministic] holds. *)
 Definition exm_text : string := "cmd (add || --k=(x|yz)) end;".
 Definition exm_o : oracles :=
   mkoracles [] 100 [("end", ""); ("add", "")] [(0, [("--k=", ""); ("yz", ""); ("x", "")])] [[0]] "sig".
 Example ex_C01_capstone_inhabited :
   is_ok (compile_bash exm_o builtins exm_text) = true
-  /\ lits_nodup exm_o = true
+  /\ text_descr_ok exm_text = true
   /\ match compile (pick_table (o_pops exm_o)) (o_fuel exm_o) builtins exm_text Bash with
-     | Ok (v, c) => mix_tree (v_expr v) = true /\ C01_domain (v_expr v) = true /\ subs_single c = true
+     | Ok (v, c) => SubBridge.sub_tree (v_expr v) = true /\ C01_domain (v_expr v) = true /\ subs_single c = true
                     /\ name_ok (v_command v)
      | _ => False
      end.
@@ -185,9 +199,15 @@ Print Assumptions ex_C01_capstone_inhabited.
     - the statements read back from [s] ([ScriptRead.read_stmts]) contain function bodies
       ([SBody]) for exactly the commands of that table, each body verbatim ([cmd_body]: trimmed,
       ":" when empty) -- so every external command the script can run is one of the above.
-    (The converse -- every chosen command of a reachable nonterminal gets a function -- is not
-    stated: it needs "every leaf of the validated tree is on a transition of the minimised
-    automaton", which holds by C02/C03 but is not packaged as a lemma.) *)
+    - conversely, for every nonterminal [x] REACHABLE from the call variants through the chosen
+      plain definitions ([Spec.Warnings.used_names g Bash], the reachability C15 is stated with)
+      for which the specification chooses a command [cm], [cm] is in that table -- hence, by the
+      previous item, has its function in the script.  (Checker half, [reachable_commands]: the
+      resolved table is the fixed point of "replace every reference by its entry", so a path in
+      the grammar carries the command into the validated tree.  Automaton half,
+      [compiled_commands_complete]: every leaf of a tree without empty alternatives occurs in a
+      denoted word, the automaton accepts it (C02 through C03's minimiser), an accepting run uses
+      a transition for each input, [get_commands] lists the command of every transition.) *)
 Theorem C11_compile_bash_commands :
   forall o builtins text s,
     compile_bash o builtins text = Ok s ->
@@ -196,6 +216,8 @@ Theorem C11_compile_bash_commands :
       /\ compile (pick_table (o_pops o)) (o_fuel o) builtins text Bash = Ok (v, c)
       /\ all_tables Bash c (o_main_lits o) (o_sub_lits o) = Ok (nd, a)
       /\ (forall cm, In cm (a_commands a) -> cmd_source builtins g Bash cm)
+      /\ (forall x cm, In x (used_names g Bash) -> Choice.spec builtins g Bash x = ChCommand cm ->
+                       In cm (a_commands a))
       /\ (name_ok (v_command v) -> no_nl (o_sig o) = true ->
           Forall (fun cm => body_ok (cmd_body cm)) (a_commands a) ->
           exists sts,
@@ -211,6 +233,8 @@ Check C11_compile_bash_commands :
       /\ compile (pick_table (o_pops o)) (o_fuel o) builtins text Bash = Ok (v, c)
       /\ all_tables Bash c (o_main_lits o) (o_sub_lits o) = Ok (nd, a)
       /\ (forall cm, In cm (a_commands a) -> cmd_source builtins g Bash cm)
+      /\ (forall x cm, In x (used_names g Bash) -> Choice.spec builtins g Bash x = ChCommand cm ->
+                       In cm (a_commands a))
       /\ (name_ok (v_command v) -> no_nl (o_sig o) = true ->
           Forall (fun cm => body_ok (cmd_body cm)) (a_commands a) ->
           exists sts,
@@ -243,6 +267,22 @@ Example ex_C11_capstone_inhabited :
 Proof. vm_compute. reflexivity. Qed.
 Print Assumptions ex_C11_capstone_inhabited.
 
+(** Non-vacuity of the converse item: <F> is reached through the plain definition of <A> only; the
+    specification chooses the bash command for it, and the command table has it. *)
+Definition exd_text : string :=
+  "cmd <A>; <A> ::= x <F>; <F@bash> ::= {{{ echo forbash }}}; <F> ::= {{{ echo plain }}};".
+Example ex_C11_converse_inhabited :
+  match Parser.parse exd_text with
+  | Ok g => In "F" (used_names g Bash) /\ Choice.spec builtins g Bash "F" = ChCommand "echo forbash"
+  | _ => False
+  end
+  /\ match compile (fun _ _ => O) 100 builtins exd_text Bash with
+     | Ok (v, c) => get_commands c = Ok ["echo forbash"]
+     | _ => False
+     end.
+Proof. split; vm_compute; [split; [right; left; reflexivity|reflexivity]|reflexivity]. Qed.
+Print Assumptions ex_C11_converse_inhabited.
+
 (** ** C17 / C06 -- the functions of the script terminate
 
     If [compile_bash] returns a script and no within-word literal of the (validated) literal orders
@@ -251,9 +291,7 @@ Print Assumptions ex_C11_capstone_inhabited.
     on the tables of that script ([BashSem.run_from Repaired], the model of /repo HEAD's bash
     templates) neither runs out of fuel nor reaches a panic site, for EVERY environment, every
     list of typed words and every prefix, and its return code is 0 or 1.
-    (C12: [C12_chain_any_repaired_variant] is about the table family [chain_alltables], tied to
-    [all_tables] of the grammars [cmd --opt=(..|..) next;] by differential execution in c12.py, not
-    by a theorem; no source-level corollary is claimed for it.) *)
+    (C12: see the next section.) *)
 Theorem C17_compile_bash_run_total :
   forall o builtins text s,
     compile_bash o builtins text = Ok s -> sub_lits_nonempty o = true ->
@@ -276,3 +314,111 @@ Check C17_compile_bash_run_total :
            /\ (forall site, run_from Repaired (d_start (c_main c)) a e ws p <> Panic site)
            /\ (forall r, run_from Repaired (d_start (c_main c)) a e ws p = Ok r -> r_rc r = 0 \/ r_rc r = 1).
 Print Assumptions C17_compile_bash_run_total.
+
+(** ** C12 -- a value that is a prefix of another value, through the capstone
+
+    [C12_chain_any_repaired_variant] is about the table family [chain_alltables lits ipre next].
+    Whether the pipeline produces an instance of that family for a text is a decidable fact about
+    that text -- an equality of finite tables -- and NOT a lemma here: a parametric proof would have
+    to evaluate parser, checker, subset construction and Hopcroft's loop symbolically on
+    [cmd <pre>(<v1>|...|<vn>) <next>;] for every n and all strings.  So the corollary is
+    conditional on that equality: if [compile_bash] returns a script and the tables of that script
+    are [chain_alltables lits ipre next] (start state 0), then for every matcher variant with the
+    repaired stop test the functions of the script, on those tables, recognise a complete value
+    even when another value extends it, and offer exactly the values that extend a partial one.
+    The equality is discharged by kernel computation for a concrete text (the Example below: the
+    text of the finding, [abc] a prefix of [abcd]) and, for Rust's tables, by differential execution
+    on the exhaustive family (c12.py). *)
+Theorem C12_compile_bash_chain :
+  forall o builtins text s v c nd a lits ipre pre next,
+    compile_bash o builtins text = Ok s ->
+    compile (pick_table (o_pops o)) (o_fuel o) builtins text Bash = Ok (v, c) ->
+    all_tables Bash c (o_main_lits o) (o_sub_lits o) = Ok (nd, a) ->
+    d_start (c_main c) = 0%N -> a = ChainTables.chain_alltables lits ipre next ->
+    nthN lits ipre = Some pre ->
+    forall var, var <> Pinned ->
+    (var = Repaired \/ (forall l, In l lits -> plain l = true)) ->
+    (forall l, In l lits -> printable_str l = true) ->
+    (forall l, In l lits -> l <> EmptyString) ->
+    C12Chain.sorted_len lits ->
+    (forall (e : BashSem.env) w,
+        BashSem.e_wordbreaks e = EmptyString \/ BashSem.e_wordbreaks e = C12Chain.default_wordbreaks ->
+        C12Chain.is_value lits pre w ->
+        run_from var (d_start (c_main c)) a e [(pre ++ w)%string] EmptyString
+        = Ok (mkresult 0 [(next ++ " ")%string] []))
+    /\ (forall (e : BashSem.env) p,
+           BashSem.e_ignore_case e = false -> BashSem.e_wordbreaks e = EmptyString ->
+           (var = Repaired \/ plain p = true) -> printable_str p = true ->
+           (exists w, C12Chain.is_value lits pre w /\ String.prefix p w = true /\ p <> w) ->
+           run_from var (d_start (c_main c)) a e [] (pre ++ p)
+           = Ok (mkresult 0 (map (append pre) (filter (String.prefix p) (C12Chain.values lits ipre))) [])).
+Proof. exact CapstoneChain.compile_bash_chain. Qed.
+Check C12_compile_bash_chain :
+  forall o builtins text s v c nd a lits ipre pre next,
+    compile_bash o builtins text = Ok s ->
+    compile (pick_table (o_pops o)) (o_fuel o) builtins text Bash = Ok (v, c) ->
+    all_tables Bash c (o_main_lits o) (o_sub_lits o) = Ok (nd, a) ->
+    d_start (c_main c) = 0%N -> a = ChainTables.chain_alltables lits ipre next ->
+    nthN lits ipre = Some pre ->
+    forall var, var <> Pinned ->
+    (var = Repaired \/ (forall l, In l lits -> plain l = true)) ->
+    (forall l, In l lits -> printable_str l = true) ->
+    (forall l, In l lits -> l <> EmptyString) ->
+    C12Chain.sorted_len lits ->
+    (forall (e : BashSem.env) w,
+        BashSem.e_wordbreaks e = EmptyString \/ BashSem.e_wordbreaks e = C12Chain.default_wordbreaks ->
+        C12Chain.is_value lits pre w ->
+        run_from var (d_start (c_main c)) a e [(pre ++ w)%string] EmptyString
+        = Ok (mkresult 0 [(next ++ " ")%string] []))
+    /\ (forall (e : BashSem.env) p,
+           BashSem.e_ignore_case e = false -> BashSem.e_wordbreaks e = EmptyString ->
+           (var = Repaired \/ plain p = true) -> printable_str p = true ->
+           (exists w, C12Chain.is_value lits pre w /\ String.prefix p w = true /\ p <> w) ->
+           run_from var (d_start (c_main c)) a e [] (pre ++ p)
+           = Ok (mkresult 0 (map (append pre) (filter (String.prefix p) (C12Chain.values lits ipre))) [])).
+Print Assumptions C12_compile_bash_chain.
+
+(** The text of the finding, from the text to the behaviour, inside the kernel: [compile_bash]
+    returns a script for it, the tables of that script are the instance
+    [chain_alltables ["--opt="; "abcd"; "abc"; "a"] 0 "next"], and the functions on those tables
+    accept the word [--opt=abc] (and [--opt=a]) although [abcd] extends it. *)
+Definition ex12_text : string := "cmd --opt=(abcd|abc|a) next;".
+Definition ex12_o : oracles :=
+  mkoracles [] 100 [("next", "")] [(0, [("--opt=", ""); ("abcd", ""); ("abc", ""); ("a", "")])] [[0]] "sig".
+Example ex_C12_capstone_instance :
+  is_ok (compile_bash ex12_o builtins ex12_text) = true
+  /\ match compile (pick_table (o_pops ex12_o)) (o_fuel ex12_o) builtins ex12_text Bash with
+     | Ok (v, c) =>
+         d_start (c_main c) = 0
+         /\ all_tables Bash c (o_main_lits ex12_o) (o_sub_lits ex12_o)
+            = Ok (mkneeds true false false false false false false,
+                  ChainTables.chain_alltables ["--opt="; "abcd"; "abc"; "a"] 0 "next")
+         /\ forall (e : BashSem.env),
+              BashSem.e_wordbreaks e = EmptyString \/ BashSem.e_wordbreaks e = C12Chain.default_wordbreaks ->
+              run_from Repaired (d_start (c_main c)) (ChainTables.chain_alltables ["--opt="; "abcd"; "abc"; "a"] 0 "next")
+                       e ["--opt=abc"] EmptyString
+              = Ok (mkresult 0 ["next "] [])
+     | _ => False
+     end.
+Proof.
+  split; [vm_compute; reflexivity|].
+  destruct (compile (pick_table (o_pops ex12_o)) (o_fuel ex12_o) builtins ex12_text Bash) as [[v c]| | |] eqn:Hc;
+    try (vm_compute in Hc; discriminate).
+  assert (Hs : d_start (c_main c) = 0) by (vm_compute in Hc; inversion Hc; reflexivity).
+  assert (Ha : all_tables Bash c (o_main_lits ex12_o) (o_sub_lits ex12_o)
+               = Ok (mkneeds true false false false false false false,
+                     ChainTables.chain_alltables ["--opt="; "abcd"; "abc"; "a"] 0 "next"))
+    by (vm_compute in Hc; inversion Hc; vm_compute; reflexivity).
+  split; [exact Hs|]. split; [exact Ha|]. intros e He.
+  assert (Hok : exists s, compile_bash ex12_o builtins ex12_text = Ok s).
+  { destruct (compile_bash ex12_o builtins ex12_text) as [s| | |] eqn:E; [eauto| | |]; vm_compute in E; discriminate. }
+  destruct Hok as [s Hcb].
+  destruct (C12_compile_bash_chain ex12_o builtins ex12_text s v c _ _ ["--opt="; "abcd"; "abc"; "a"] 0 "--opt=" "next"
+              Hcb Hc Ha Hs eq_refl eq_refl Repaired ltac:(discriminate) (or_introl eq_refl)) as [H1 _].
+  - intros l Hl. repeat (destruct Hl as [<-|Hl]; [vm_compute; reflexivity|]). destruct Hl.
+  - intros l Hl. repeat (destruct Hl as [<-|Hl]; [discriminate|]). destruct Hl.
+  - cbn. repeat split; intros b Hb; repeat (destruct Hb as [<-|Hb]; [cbn; lia|]); destruct Hb.
+  - assert (Hv : C12Chain.is_value ["--opt="; "abcd"; "abc"; "a"] "--opt=" "abc") by (split; [cbn; auto|discriminate]).
+    pose proof (H1 e "abc" He Hv) as H. cbn [append] in H. exact H.
+Qed.
+Print Assumptions ex_C12_capstone_instance.
